@@ -107,6 +107,7 @@ type verifUpstream struct {
 	ip    [4]byte
 	ttl   uint32
 	req   *dns.Msg
+	rcode int
 }
 
 func (u *verifUpstream) ServeDNS(ctx context.Context, rw dnsserver.ResponseWriter, req *dns.Msg) error {
@@ -117,6 +118,10 @@ func (u *verifUpstream) ServeDNS(ctx context.Context, rw dnsserver.ResponseWrite
 		Hdr: dns.RR_Header{Name: req.Question[0].Name, Rrtype: dns.TypeA, Class: dns.ClassINET, Ttl: u.ttl},
 		A:   net.IP{u.ip[0], u.ip[1], u.ip[2], u.ip[3]},
 	}}
+	if u.rcode != dns.RcodeSuccess {
+		resp.Rcode = u.rcode
+		resp.Answer = nil
+	}
 	u.resp = resp
 	return rw.WriteMsg(ctx, req, resp)
 }
@@ -145,13 +150,15 @@ type verifEnv struct {
 	rw    *verifMainRW
 }
 
-func verifNewEnv() *verifEnv {
+func verifNewEnv() *verifEnv { return verifNewEnvMode(&dnsmsg.BlockingModeNullIP{}) }
+
+func verifNewEnvMode(bm dnsmsg.BlockingMode) *verifEnv {
 	e := &verifEnv{flt: &verifFlt{}, bill: &verifBill{}, qlog: &verifQLog{}, rstat: &verifRuleStat{}, ups: &verifUpstream{ttl: 300}, rw: &verifMainRW{}}
 	e.strg = &verifStorage{flt: e.flt}
 	cloner := agdtest.NewCloner()
 	msgs, err := dnsmsg.NewConstructor(&dnsmsg.ConstructorConfig{
 		Cloner:              cloner,
-		BlockingMode:        &dnsmsg.BlockingModeNullIP{},
+		BlockingMode:        bm,
 		StructuredErrors:    agdtest.NewSDEConfig(false),
 		FilteredResponseTTL: 77 * time.Second,
 	})
@@ -196,10 +203,18 @@ func verifResult(kind int, req *dns.Msg, msgs *dnsmsg.Constructor) filter.Result
 // attributed to a profile, the log entry only with query logging enabled, the client
 // address only with IP logging enabled, and the entry describes this request.
 //
-//verif:harness name=H15a-record tier=quick,thorough bounds="device result kind (anonymous, OK, auth failure), QueryLogEnabled / IPLogEnabled / FilteringEnabled flags symbolic, request verdict from {none, allowed, blocked, modified response, modified request}, response verdict from {none, allowed, blocked}; client address, ASN, start time, qtype, message ID symbolic" reach=logged,billed-not-logged,anonymous maxpaths=100000
+//verif:harness name=H15a-record tier=quick,thorough bounds="device result kind (anonymous, OK, auth failure), QueryLogEnabled / IPLogEnabled / FilteringEnabled flags symbolic, request verdict from {none, allowed, blocked, modified response, modified request}, response verdict from {none, allowed, blocked}; blocking mode from {null IP, NXDOMAIN, REFUSED}; upstream rcode from {NOERROR, NXDOMAIN, SERVFAIL}; client address, ASN, start time, qtype, message ID symbolic" reach=logged,billed-not-logged,anonymous maxpaths=100000
 //verif:assume filter storage, upstream, billing, query log and rule statistics are recorder stubs
 func VerifC15Record() {
-	e := verifNewEnv()
+	var bm dnsmsg.BlockingMode = &dnsmsg.BlockingModeNullIP{}
+	switch verifChoice(3) {
+	case 1:
+		bm = &dnsmsg.BlockingModeNXDOMAIN{}
+	case 2:
+		bm = &dnsmsg.BlockingModeREFUSED{}
+	}
+	e := verifNewEnvMode(bm)
+	e.ups.rcode = []int{dns.RcodeSuccess, dns.RcodeNameError, dns.RcodeServerFailure}[verifChoice(3)]
 	qlogEnabled, ipLog := nondetBool(), nondetBool()
 	prof := &agd.Profile{
 		ID:               "prof1234",
